@@ -218,6 +218,18 @@ func init() {
 		sc := map[string]any{"kind": "memcopy", "mem": hex.EncodeToString(mem), "dst": mu64(o, "dst"), "src": mu64(o, "src"), "len": mu64(o, "len")}
 		return c.runScenario("unit replay of (*vm.Memory).Copy", sc, safetyConfirm(o))
 	}
+	replayers["(*vm.StateChanges).saveKey"] = func(c *Ctx, prop string, o *Obl) *ReplayRun {
+		sc := map[string]any{"kind": "keytree"}
+		return c.runScenario("tracer API history: register a at (slot 1, offset 0, type A), register b at (slot 1, offset 0, type B) under the same root, journal a change for b", sc, func(ro *replayOutcome) (bool, string) {
+			all := strings.Join(ro.Notes, " | ")
+			for _, n := range ro.Notes {
+				if strings.HasPrefix(n, "disagree") {
+					return true, all
+				}
+			}
+			return false, all
+		})
+	}
 	for _, q := range []string{"(*vm.StorageKey).Children", "(*vm.StorageKey).ChildrenIndices", "(*vm.StateChanges).IndicesOfChanges"} {
 		q := q
 		replayers[q] = func(c *Ctx, prop string, o *Obl) *ReplayRun {
